@@ -102,8 +102,17 @@ def confirm_literal_styles(sc):
     open(os.path.join(d, 'Cargo.toml'), 'w').write(f'[package]\nname = "c18s"\nversion = "0.0.0"\nedition = "2021"\n[dependencies]\ngraphql_client = {{ path = "{vc.REPO}/graphql_client" }}\n'
                                                     'serde = { version = "1", features = ["derive"] }\nserde_json = "1"\n[workspace]\n')
     shutil.copy(os.path.join(vc.REPO, 'Cargo.lock'), os.path.join(d, 'Cargo.lock'))
-    open(os.path.join(d, 'gql', 's.graphql'), 'w').write('enum Direction { NORTH SOUTH }\ntype Query { x(a: Int): Int d: Direction }\n')
+    open(os.path.join(d, 'gql', 's.graphql'), 'w').write('enum Direction { NORTH SOUTH }\nunion U = A | B\ntype A { x: Int }\ntype B { y: Int }\n'
+                                                           'type Query { x(a: Int): Int d: Direction u: U }\n')
     derives, uses = [], []
+    # boolean-valued keys: the value written reaches the option ("false" is off, "true" is on, absent is off)
+    open(os.path.join(d, 'gql', 'qu.graphql'), 'w').write('query Qu { u { __typename ... on A { x } } }\n')
+    for tag, attr, accepts in (('f', 'fragments_other_variant = "false", ', False), ('t', 'fragments_other_variant = "true", ', True), ('n', '', False)):
+        derives.append(f'#[derive(GraphQLQuery)]\n#[graphql(schema_path = "gql/s.graphql", query_path = "gql/qu.graphql", {attr}response_derives = "Debug")]\npub struct Qu{tag};')
+        open(os.path.join(d, 'gql', f'qu{tag}.graphql'), 'w').write(f'query Qu{tag} {{ u {{ __typename ... on A {{ x }} }} }}\n')
+        derives[-1] = derives[-1].replace('gql/qu.graphql', f'gql/qu{tag}.graphql')
+        uses.append(f'    let ru{tag} = serde_json::from_str::<qu{tag}::ResponseData>(r#"{{"u": {{"__typename": "Zzz"}}}}"#);\n'
+                    f'    assert_eq!(ru{tag}.is_ok(), {str(accepts).lower()}, "fragments_other_variant: attribute `{attr.strip(", ").replace(chr(34), chr(39))}` must {"accept" if accepts else "reject"} an unknown __typename");')
     for i, (style, enum_lit, dep_lit) in enumerate(LITERAL_STYLES):
         open(os.path.join(d, 'gql', f'q{i}.graphql'), 'w').write(f'query Q{i}($a: Int) {{ x(a: $a) d }}\n')
         derives.append(f'#[derive(GraphQLQuery)]\n#[graphql(schema_path = "gql/s.graphql", query_path = "gql/q{i}.graphql", response_derives = "Debug,PartialEq", '
@@ -111,6 +120,9 @@ def confirm_literal_styles(sc):
         uses.append(f'    let r{i}: q{i}::ResponseData = serde_json::from_str(body).unwrap();\n    let d{i}: Option<Direction> = r{i}.d;\n    assert_eq!(d{i}, Some(Direction::NORTH));')
     open(os.path.join(d, 'src', 'main.rs'), 'w').write(STYLES_MAIN.replace('DERIVES', '\n'.join(derives)).replace('USES', '\n'.join(uses)))
     rc, out, _ = vc.run(['cargo', 'run', '--offline', '--target-dir', os.path.join(sc, 'c18-target')], cwd=d, timeout=900)
+    if rc != 0 and 'fragments_other_variant: attribute' in out:
+        m = re.search(r'fragments_other_variant: attribute[^\n]*', out)
+        return False, 'a boolean-valued key does not reach the option unchanged: ' + m.group(0)[:300]
     if rc != 0 or 'styles ok' not in out:
         m = re.search(r'^error[^\n]*(\n[^\n]*){0,6}', out, re.M)
         which = re.search(r'q(\d)::', m.group(0)) if m else None
